@@ -52,6 +52,20 @@ class Bound:
         return f"Bound({self.func}, {self.self_val})"
 
 
+class FStr(str):
+    """opaque text; .token records that it embeds a token of the content it names (Dask task names)"""
+    def __new__(cls, text, token=False):
+        o = super().__new__(cls, text)
+        o.token = token
+        return o
+
+    def __add__(self, other):
+        return FStr(str.__add__(self, str(other)), self.token or getattr(other, "token", False))
+
+    def __radd__(self, other):
+        return FStr(str(other) + str(self), self.token or getattr(other, "token", False))
+
+
 class Stub:
     """Library function: fn(ctx, *args, **kwargs)."""
 
@@ -297,7 +311,13 @@ class Interp:
 
     def call(self, f, args, kwargs, ctx):
         if isinstance(f, Stub):
-            return f.fn(ctx, *args, **kwargs)
+            try:
+                return f.fn(ctx, *args, **kwargs)
+            except TypeError as e:
+                # a call form the stub does not model (extra keyword, other arity) is outside the subset
+                if "unexpected keyword argument" in str(e) or "positional argument" in str(e):
+                    raise Unsupported(f"call form of {getattr(f, 'name', f)} not modelled: {e}")
+                raise
         if isinstance(f, FuncVal):
             return self.call_function(f, args, kwargs, ctx)
         if isinstance(f, Bound):
@@ -823,8 +843,14 @@ class Interp:
         return d
 
     def ex_JoinedStr(self, n, env, ctx):
-        # text of messages is opaque (extraction drops it); evaluate nothing
-        return "<fstring>"
+        # text of messages is opaque (extraction drops it); evaluate nothing.  What is kept: whether the text
+        # embeds a content token (dask.base.tokenize / uuid), which the Dask task-name rule asks about
+        tok = any(isinstance(c, ast.Call) and (getattr(c.func, "id", None) or getattr(c.func, "attr", "")) in ("tokenize", "uuid4", "uuid1")
+                  for c in ast.walk(n))
+        for c in ast.walk(n):
+            if isinstance(c, ast.Name) and env.has(c.id) and isinstance(env.lookup(c.id), FStr):
+                tok = tok or env.lookup(c.id).token
+        return FStr("<fstring>", tok)
 
     def ex_Attribute(self, n, env, ctx):
         return self.get_attr(self.eval(n.value, env, ctx), n.attr, ctx)
